@@ -260,7 +260,7 @@ def check_damaged_conf(ck, rng, n):
             names = ['O', 'B', 'H']
             rng.shuffle(names)
             bad = names[0]
-            how = rng.choice(['truncated', 'not-json', 'not-utf8', 'empty', 'directory'])
+            how = rng.choice(['truncated', 'not-json', 'not-utf8', 'empty', 'directory', 'json-list', 'json-number', 'json-string', 'json-null'])
             for c in names:
                 path = os.path.join(root, c + '_component_ids.json')
                 if c != bad:
@@ -268,7 +268,8 @@ def check_damaged_conf(ck, rng, n):
                 elif how == 'directory':
                     os.makedirs(path)
                 else:
-                    open(path, 'wb').write({'truncated': b'{"2000": ', 'not-json': b'2000 = bmc', 'not-utf8': b'{"2000": "\xff\xfe"}', 'empty': b''}[how])
+                    open(path, 'wb').write({'truncated': b'{"2000": ', 'not-json': b'2000 = bmc', 'not-utf8': b'{"2000": "\xff\xfe"}', 'empty': b'',
+                                           'json-list': b'["2000", "x"]', 'json-number': b'2000', 'json-string': b'"2000"', 'json-null': b'null'}[how])
             creator = rng.choice([c for c in 'OBH' if c != bad] + ['O', bad])
             pel = pelbuild.pel([pelbuild.UH(comp=0x2000), pelbuild.SRC(comp=0x1234)], creator=creator.encode(), eid=0x50000200 + k, comp=0x2000)
             comp_id.pelConfigRootPath = root
